@@ -35,4 +35,7 @@ CHECKS = {
  'C04': dict(level='exploration', technique='model-based (stateful) property testing: generated edit histories, incremental vs fresh parse differential after every step',
    text='Edit histories (2-11 texts, 18 kinds of edit incl. undo, BOM/newline-style toggles, flow/decorator lines) are replayed through diff_cache under a private path; after every step the incremental tree is compared with a fresh parse by an own comparator, plus parent links, code and the used-names index.',
    note='Copy/re-parse counts come from a counting DiffParser subclass on a private grammar instance; one listed finding (F-C04-2) is signature-matched when its trigger is in the old text.'),
+ 'C08': dict(level='exploration', technique='exhaustive enumeration of all shipped rules/states + property-based testing on random EBNF grammars against an independent NFA/DFA/first-set model',
+   text='Every rule and automaton state of every shipped grammar file is compared each run (bisimulation = language equality, exact token->plan tables, reserved strings); random small EBNF grammars extend this to the generator itself incl. the reject-iff-not-LL(1) clause.',
+   note='Reference model in vf/model/ebnf.py shares no code with parso; nullable-follow conflicts are outside the claim as stated. Exhaustive for the shipped files, sampled for random grammars.'),
 }
